@@ -172,6 +172,31 @@ func c10Programs(depth int) []*gen.Program {
 			}
 		}
 	}
+	// loops that run ZERO times (exactly 0, at most 0, between 0 and 0) around the FIRST mention of a stored pattern or
+	// the definition of an inline subroutine, with the same name used again afterwards: no code stands where the loop
+	// was, whatever its body mentions
+	if depth >= 2 {
+		bl := gen.Lit{S: "b"}
+		for _, z := range []gen.Loop{{Min: 0, Max: 0, Form: "exactly"}, {Min: 0, Max: 0, Form: "atmost"}, {Min: 0, Max: 0, Form: "between"}} {
+			for _, b := range blocks {
+				gl := []gen.Global{{Name: "p", Body: []gen.Node{b}}}
+				p := gen.GlobalRef{Name: "p"}
+				my := gen.Loop{Min: 0, Max: 1, Form: "maybe", Body: gen.Lit{S: "a"}}
+				for _, body := range [][]gen.Node{
+					{wrap(z, p), p},
+					{wrap(z, p), p, bl},
+					{wrap(z, p), my, p},
+					{wrap(z, gen.Seq{Items: []gen.Node{bl, p}}), gen.Loop{Min: 0, Max: -1, Form: "atleast", Body: p}},
+				} {
+					progs = append(progs, &gen.Program{Globals: gl, Commands: []gen.Command{{Amount: gen.Amount{Kind: "all"}, Body: body}}})
+				}
+				// the stored pattern first mentioned under a zero-count loop INSIDE another stored pattern
+				progs = append(progs, &gen.Program{Globals: append(append([]gen.Global{}, gl...), gen.Global{Name: "q", Body: []gen.Node{wrap(z, p), p}}),
+					Commands: []gen.Command{{Amount: gen.Amount{Kind: "all"}, Body: []gen.Node{gen.GlobalRef{Name: "q"}, bl}}}})
+				mk(wrap(z, gen.SubDef{Name: "s", Body: []gen.Node{b}}), gen.SubDef{Name: "t", Body: []gen.Node{b}}, gen.SubCall{Name: "t"})
+			}
+		}
+	}
 	if depth >= 3 {
 		for _, f := range forms {
 			for i, l := range l2 {
@@ -209,7 +234,7 @@ func C10(r *drv.Run) {
 	progs := c10Programs(depth)
 	texts := allTexts("ab\n", tlen)
 	r.Exhaustive = true
-	r.Rule = fmt.Sprintf("bounded-progress form of termination: every Run must return within %d VM steps (hook H1), a budget fixed at >= 100x the largest step count the enumerated scope needs on the unchanged tree. Scope enumerated completely: all programs of loop-nesting depth <= %d over nullable building blocks (literal, not-literal, any, line/word/file anchors and their negations, the empty group, the empty string, not-in, in-lists with an empty-string member first or last, whole word/line; loop forms maybe, at least 0, at most 2, between 0 and 2, at least 1, greedy and fewest; every level-1 program also under skip / skip-take / top / take / last clauses, as find and as replace; loops over loops, over (block loop) and over (loop or block); nullable bodies in subroutines called from loops; named loops with nullable bodies at top level, inside an inline subroutine, inside a stored pattern, inside a subroutine called from a loop, and named loops with a minimum of 50 000 / 100 000 over such bodies; stored patterns with a predicate (one that returns, one that ends without reaching a return, one that rejects) over each nullable block, referenced twice in a row, inside loops, and two of them side by side in a loop body; recursion guarded by each kind of consuming element, also with the recursive call inside a loop whose body is nullable (maybe s; s or the empty group): literal, not-literal, any, class, negated class, not-in, in, ranges with an empty lower bound) x all %d inputs over {a,b,\\n} up to length %d; plus seeded random deeper programs on inputs <= 8 bytes, a third of them drawing on every construct (regex literals, named loops, whole-*, amount clauses, replace) with now and then one name bound both by a capture and by a named loop (there an over-budget run is skipped, not judged; what counts there: crashes, and the step monitor's no-progress verdict - one instruction executed 20 000 times in a row in the same attempt at the same input offset with unchanged backtrack/call/loop depths). The property's other clause - process code without an unbounded loop - is covered by bounded process loops (counter loops, loops counting in a name they never initialise, head/tail loops with break, continue at every position, nested loops, return from inside; every transform used three times in one replacement) in transforms and predicates: every Run must return (there the worker's 30-second CPU guard is the observer; the VM step hook does not see process statements). Long prefixes: ten programs whose nullable loop (unnamed, named, capturing, lazy, in a regex literal) starts after one attempt has matched 100 .. 131 073 bytes through whole file / whole line (lengths on both sides of 65 536); budget 250 000 steps. Non-trivial = the program contains an optional loop whose body can match the empty string and the run executed a loop instruction; distinct by (program, input).", budget, depth, len(texts), tlen)
+	r.Rule = fmt.Sprintf("bounded-progress form of termination: every Run must return within %d VM steps (hook H1), a budget fixed at >= 100x the largest step count the enumerated scope needs on the unchanged tree. Scope enumerated completely: all programs of loop-nesting depth <= %d over nullable building blocks (literal, not-literal, any, line/word/file anchors and their negations, the empty group, the empty string, not-in, in-lists with an empty-string member first or last, whole word/line; loop forms maybe, at least 0, at most 2, between 0 and 2, at least 1, greedy and fewest; every level-1 program also under skip / skip-take / top / take / last clauses, as find and as replace; loops over loops, over (block loop) and over (loop or block); nullable bodies in subroutines called from loops; named loops with nullable bodies at top level, inside an inline subroutine, inside a stored pattern, inside a subroutine called from a loop, and named loops with a minimum of 50 000 / 100 000 over such bodies; loops that run zero times (exactly 0, at most 0, between 0 and 0) around the first mention of a stored pattern - in a command and inside another stored pattern - or around the definition of an inline subroutine, the name used again afterwards; stored patterns with a predicate (one that returns, one that ends without reaching a return, one that rejects) over each nullable block, referenced twice in a row, inside loops, and two of them side by side in a loop body; recursion guarded by each kind of consuming element, also with the recursive call inside a loop whose body is nullable (maybe s; s or the empty group): literal, not-literal, any, class, negated class, not-in, in, ranges with an empty lower bound) x all %d inputs over {a,b,\\n} up to length %d; plus seeded random deeper programs on inputs <= 8 bytes, a third of them drawing on every construct (regex literals, named loops, whole-*, amount clauses, replace) with now and then one name bound both by a capture and by a named loop (there an over-budget run is skipped, not judged; what counts there: crashes, and the step monitor's no-progress verdict - one instruction executed 20 000 times in a row in the same attempt at the same input offset with unchanged backtrack/call/loop depths). The property's other clause - process code without an unbounded loop - is covered by bounded process loops (counter loops, loops counting in a name they never initialise, head/tail loops with break, continue at every position, nested loops, return from inside; every transform used three times in one replacement) in transforms and predicates: every Run must return (there the worker's 30-second CPU guard is the observer; the VM step hook does not see process statements). Long prefixes: ten programs whose nullable loop (unnamed, named, capturing, lazy, in a regex literal) starts after one attempt has matched 100 .. 131 073 bytes through whole file / whole line (lengths on both sides of 65 536); budget 250 000 steps. Non-trivial = the program contains an optional loop whose body can match the empty string and the run executed a loop instruction; distinct by (program, input).", budget, depth, len(texts), tlen)
 	r.Assumptions = []string{
 		"unbounded 'always terminates' is restated as 'returns within the step budget'; max observed steps are in the evidence so the margin is visible",
 		"recursion only behind a consumed byte; no process-code loops",
